@@ -7,4 +7,5 @@ AllActs == {"proposal", "prepare", "commit", "rc", "decided"}
 LeaderActs == {"proposal", "prepare", "commit"}
 RCActs == {"rc"}
 DecidedActs == {"decided"}
+RelabelActs == {"relabel", "prepare"}
 =============================================================================
